@@ -28,11 +28,18 @@ PROP = {
             "(thorough: 32 too), and one aliasing pattern of every statement form + random trees at each degree of gen_expr.degree_plan (quick: E, 3E, 64+E, "
             "96, 128-E, 200 for register width E, i.e. small, non-power-of-two, just above 64, just below 128, above 128; thorough: ~20 degrees up to 1024 "
             "incl. degrees only narrower-mode roots accept); every line compares every coefficient of every handle; each line carries the "
-            "tree, the store before, the mode the compiler resolved and the store after; distinct = distinct lines; class = form:backend:mode:depth:aliasing:degree class",
+            "tree, the store before, the mode the compiler resolved and the store after; distinct = distinct lines; class = form:backend:mode:depth:aliasing:degree class. "
+            "ACCEPTANCE BORDER: a representative of every shape family the acceptance rules reject (root kind x operand kind poly / poly_p / sum / product / fused product "
+            "in each operand position x quotient-operand kind, per limb x backend; quick: 10 per configuration, seed-rotated, always the fused products with a handle "
+            "factor; thorough: all ~500) is compiled alone; one that the compiler accepts is inside the claim and is executed (3-4 fills x every aliasing pattern / "
+            "construction / detach, degrees 16 and 48; `asgx` lines: exact meaning under Adm, and the width-1 model): wrong value = failing input, exact value = "
+            "problem `predictor-new-shape-correct` (broken tie, no failing input)",
     "trusted_base": props.COMMON_TB + [
         "C++ overload resolution / template matching is observed per generated TU, not modelled: the tree a line reports is the one tools/gen_expr.py wrote; "
         "that it is the tree the compiler built is tied by the reported root simd_mode and by the results",
-        "the compile predictor (which shapes each backend accepts) is a generator aid kept honest by -fsyntax-only probes; rejected shapes are outside the property",
+        "the compile predictor (which shapes each backend accepts) is a generator aid kept honest by -fsyntax-only probes in both directions: rejected shapes are "
+        "outside the property; the rejected families are enumerated systematically (tools/gen_expr.py family_keys) over small trees (operands of depth <= 2) - a "
+        "shape that starts to compile only at larger depth and in no enumerated family is not seen",
         "SIMD kernels are lane-wise the scalar functors (hypothesis Kernels.Lanewise of kernel_irrelevant; established for the functors by the C03 stream, observed again here per assignment)",
     ],
     "assumptions": ["canonical operands (< p) at every + - * and fused product; third operand of a fused product is the precomputed quotient of the second (Adm)",
